@@ -932,6 +932,15 @@ xar_read_data(struct archive_read *a,
 	r = rd_contents(a, buff, size, &used, xar->entry_remaining);
 	if (r != ARCHIVE_OK)
 		goto abort_read_data;
+	if (used == 0 && *size == 0) {
+		/* The compressed stream ended before the length the TOC
+		 * gives for it: nothing will ever be consumed again. */
+		archive_set_error(&(a->archive), ARCHIVE_ERRNO_FILE_FORMAT,
+		    "Entry data ends before its declared length");
+		xar->entry_remaining = 0;
+		r = ARCHIVE_FATAL;
+		goto abort_read_data;
+	}
 
 	*offset = xar->entry_total;
 	xar->entry_total += *size;
